@@ -228,6 +228,12 @@ pub fn run(tier: &str) -> Report {
             let r = std::panic::catch_unwind(|| -> Result<(String, String, String, Option<String>, bool), String> {
                 let v: CanonicalJsonValue = serde_json::from_str(&text).map_err(|e| format!("from_str::<CanonicalJsonValue>: {e}"))?;
                 let disp = v.to_string();
+                // the canonical text does not depend on how Display is asked for it (width, fill, alignment, precision, `#`)
+                for other in [format!("{v:80}"), format!("{v:>7}"), format!("{v:*^9}"), format!("{v:.3}"), format!("{v:#}"), format!("{v:08.1}")] {
+                    if other != disp {
+                        return Err(format!("Display with formatting parameters gives {other:?}, to_string() gives {disp:?}"));
+                    }
+                }
                 let ser = serde_json::to_string(&v).map_err(|e| e.to_string())?;
                 let generic: Value = serde_json::from_str(&text).map_err(|e| format!("from_str::<Value>: {e}"))?;
                 let via_value = to_canonical_value(&generic).map_err(|e| format!("to_canonical_value: {e}"))?.to_string();
